@@ -30,9 +30,12 @@ package aggoracle
 //@   modifies nothing
 //@   ensures result1 == nil ==> result0 == gerInjected[ger]
 
+// injectFaults: injections the sender reported as failed (ghost)
+//@ ghost var injectFaults int
 //@ interface github.com/agglayer/aggkit/aggoracle.ChainSender.InjectGER (self, ctx, ger)
-//@   modifies gerInjected, lastInjected, injectCalls
+//@   modifies gerInjected, lastInjected, injectCalls, injectFaults
 //@   ensures injectCalls == old(injectCalls) + 1 && lastInjected == ger
+//@   ensures injectFaults == old(injectFaults) + ite(result == nil, 0, 1)
 //@   ensures result == nil ==> gerInjected == upd(old(gerInjected), ger, true)
 
 //@ func (a *AggOracle) getLastFinalizedGER (a, ctx, targetBlockNum)
@@ -55,7 +58,8 @@ package aggoracle
 //@   props C15
 //@   requires a != nil && a.l1Client != nil && a.l1Info != nil && a.chainSender != nil && a.logger != nil && blockNumToFetch != nil
 //@   requires *blockNumToFetch != 0 ==> sampledFinal[*blockNumToFetch]
-//@   modifies *blockNumToFetch, sampledFinal, lastSampled, gerInjected, lastInjected, injectCalls, infoLookupsOK
+//@   modifies *blockNumToFetch, sampledFinal, lastSampled, gerInjected, lastInjected, injectCalls, infoLookupsOK, injectFaults
+//@   ensures[a-failed-injection-is-reported] result == nil ==> injectFaults == old(injectFaults)
 //@   ensures[at-most-one-injection] injectCalls == old(injectCalls) || injectCalls == old(injectCalls) + 1
 //@   ensures[injects-only-a-finalized-current-root] injectCalls == old(injectCalls) + 1 ==> lastInjected == latestGerUntil(ite(old(*blockNumToFetch) != 0, old(*blockNumToFetch), lastSampled)) && sampledFinal[ite(old(*blockNumToFetch) != 0, old(*blockNumToFetch), lastSampled)]
 //@   ensures[never-injects-a-present-root] injectCalls == old(injectCalls) + 1 ==> !old(gerInjected)[lastInjected]
@@ -72,7 +76,7 @@ package aggoracle
 //@ func (a *AggOracle) Start (a, ctx)
 //@   props C15
 //@   requires a != nil && a.l1Client != nil && a.l1Info != nil && a.chainSender != nil && a.logger != nil
-//@   modifies sampledFinal, lastSampled, gerInjected, lastInjected, injectCalls, infoLookupsOK
+//@   modifies sampledFinal, lastSampled, gerInjected, lastInjected, injectCalls, infoLookupsOK, injectFaults
 //@   nocalls
 //@   allowcalls processLatestGER handleGERProcessingError NewTicker Stop Done
 //@   loop 0 invariant ticker != nil
